@@ -31,8 +31,9 @@ func New(enableWeight bool) *Random {
 }
 
 func (r *Random) Select(_ selector.Message) (endpoint.Endpoint, error) {
-	r.RLock()
-	defer r.RUnlock()
+	// r.rand is not safe for concurrent use: take the write lock
+	r.Lock()
+	defer r.Unlock()
 	var ep endpoint.Endpoint
 	if len(r.endpoints) == 0 {
 		return ep, errors.New("random: no such endpoint.Endpoint")
